@@ -1665,3 +1665,19 @@ def m_pin_new(ex, c, a, m):
 
 
 from . import osm   # noqa: E402  (registers the OS contract model)
+
+
+@model(r'core::str::<impl str>::replace::<.+>|std::str::<impl str>::replace::<.+>|alloc::str::<impl str>::replace::<.+>')
+def m_str_replace(ex, c, a, m):
+    s, pat, rep = as_S(a[0]), _pat(a[1]), tuple(as_S(a[2]))
+    if not pat:
+        raise Unmodelled('replace with an empty pattern')
+    out, i, n, k = [], 0, len(s), len(pat)
+    while i < n:
+        if i + k <= n and ex.branch(_match_at(s, i, pat)):
+            out += rep
+            i += k
+        else:
+            out.append(s[i])
+            i += 1
+    return S(out)
